@@ -275,16 +275,25 @@ manifest = {
                            "bodies with resolved callees, field names and macro provenance as JSON"},
         {"name": "rules", "path": "/verif/rules", "serves_properties": ALL,
          "kind_free_text": "Python rule engine over the facts: CFG dominance, call graph, decision-table extraction, "
-                           "ordering enumeration, writer/caller inventories, wire-table agreement, panic inventory"},
+                           "ordering enumeration, writer/caller inventories, wire-table agreement, panic inventory with buffer-version-aware guard "
+                           "verification, forwarder tables (wrappers.py), structural identity (identity.py), lossy-adaptor inventory (adaptors.py)"},
+        {"name": "witness", "path": "/verif/witness", "serves_properties": ["C02", "C05", "C06", "C10", "C11", "C12", "C13", "C14", "C15"],
+         "kind_free_text": "compile_fail doc-tests with compiling twins (thorough tier): what an external crate cannot name or call"},
     ],
     "checks": [],
     "not_applicable": [],
     "notes": "All checks are static: they rebuild facts from /repo's working tree with `cargo +nightly check` through the "
              "factgen wrapper and never run chitchat code. known_findings.json lists genuine defects (known / fixed).",
 }
+HARDENING = (" Since the seeded-change rounds (DESIGN.md §11-§12) the check also runs: the rules of other properties it rests on "
+             "(listed as Rxx.y(Rzz.w) in RULES.md), forwarder/accessor tables for the one-line wrappers on its paths, who-may-call and "
+             "owner-only-writer inventories, the structural-identity rules RD.1/RD.2 (derived Eq/Ord/Hash/Clone, container key types) "
+             "where it compares or copies values, and the lossy-adaptor / lossy-cast inventory RA.1 over every body its engines walked.")
 for pid in ALL:
     if pid in CLAIMS:
-        c = CLAIMS[pid]
+        c = dict(CLAIMS[pid])
+        c["text"] = c["text"] + HARDENING
+        c["technique"] = c["technique"] + " + forwarder tables, who-may-call / writer inventories, derived-impl and key-type checks, lossy-adaptor inventory (all over rustc MIR facts; nothing executed)"
         manifest["checks"].append({
             "property_id": pid,
             "quick_cmd": "./check %s quick" % pid,
